@@ -67,7 +67,7 @@ func main() {
 		name string
 		run  func(lib.Flags, *lib.Result)
 	}{{"core", runCore}, {"nested", runNested}, {"events", runEvents}, {"rim", runRim}, {"rim2", runRim2}, {"rim3", runRim3},
-		{"rim4", runRim4}, {"rim5", runRim5}, {"rim6", runRim6}, {"rim7", runRim7}, {"rim8", runRim8}, {"models", runModels}} {
+		{"rim4", runRim4}, {"rim5", runRim5}, {"rim6", runRim6}, {"rim7", runRim7}, {"rim8", runRim8}, {"rim9", runRim9}, {"models", runModels}} {
 		if len(only) == 0 || only[fam.name] {
 			fam.run(f, res)
 		}
@@ -160,6 +160,22 @@ func replay(f lib.Flags) int {
 		ans, changed := runCountCase(c)
 		countViolation(c, changed, m)
 		fmt.Printf("replay count %v -> %s\n", c, ans)
+	case "setactive":
+		var c setActiveCase
+		if err := json.Unmarshal(b, &c); err != nil {
+			lib.Fatal(err)
+		}
+		ans, changed := runSetActiveCase(c)
+		setActiveViolation(c, changed, m)
+		fmt.Printf("replay setactive %v -> %s\n", c, ans)
+	case "light":
+		var c lightCase
+		if err := json.Unmarshal(b, &c); err != nil {
+			lib.Fatal(err)
+		}
+		ans, changed := runLightCase(c)
+		lightViolation(c, changed, m)
+		fmt.Printf("replay light %v -> %s\n", c, ans)
 	case "incl":
 		var c inclCase
 		if err := json.Unmarshal(b, &c); err != nil {
